@@ -44,6 +44,83 @@ class CallSite:
         self.func = func
 
 
+def static_values(func, name, at, depth=0):
+    """The expressions a local Name can stand for at node `at`, when that is decided by literal tables: a loop variable over a
+    literal tuple/list (directly, through a name bound once, or one column of unpacked rows), or a name bound once.  None when
+    not statically enumerable."""
+    if depth > 4:
+        return None
+    binders = []
+    for st in ast.walk(func.node):
+        if isinstance(st, (ast.For, ast.comprehension)):
+            pos = _target_path(st.target, name.id)
+            if pos is not None:
+                binders.append((st, pos))
+        elif isinstance(st, ast.Assign):
+            for t in st.targets:
+                pos = _target_path(t, name.id)
+                if pos is not None:
+                    binders.append((st, pos))
+        elif isinstance(st, (ast.AugAssign, ast.AnnAssign, ast.NamedExpr)) and isinstance(st.target, ast.Name) and st.target.id == name.id:
+            return None
+    a = func.node.args
+    if any(x.arg == name.id for x in a.posonlyargs + a.args + a.kwonlyargs) or (a.vararg and a.vararg.arg == name.id) or (a.kwarg and a.kwarg.arg == name.id):
+        return None
+    if not binders:
+        # a module-level constant bound once
+        defs = [st.value for st in func.module.tree.body if isinstance(st, ast.Assign) and any(isinstance(t, ast.Name) and t.id == name.id for t in st.targets)]
+        return [defs[0]] if len(defs) == 1 else None
+    if len(binders) != 1:
+        # several loops may reuse a name: the enclosing one decides
+        enclosing = [(st, pos) for st, pos in binders if isinstance(st, ast.For) and any(x is at for x in ast.walk(st))]
+        if len(enclosing) != 1:
+            return None
+        binders = enclosing
+    st, pos = binders[0]
+    if isinstance(st, ast.Assign):
+        srcs = [st.value]
+    else:
+        srcs = _elements(func, st.iter, st, depth)
+        if srcs is None:
+            return None
+    out = []
+    for e in srcs:
+        for i in pos:
+            if not isinstance(e, (ast.Tuple, ast.List)) or i >= len(e.elts) or any(isinstance(x, ast.Starred) for x in e.elts):
+                return None
+            e = e.elts[i]
+        out.append(e)
+    return out
+
+
+def _target_path(target, ident):
+    if isinstance(target, ast.Name):
+        return () if target.id == ident else None
+    if isinstance(target, (ast.Tuple, ast.List)):
+        for i, t in enumerate(target.elts):
+            p = _target_path(t, ident)
+            if p is not None:
+                return (i,) + p
+    return None
+
+
+def _elements(func, it, at, depth):
+    if isinstance(it, (ast.Tuple, ast.List)):
+        return None if any(isinstance(x, ast.Starred) for x in it.elts) else list(it.elts)
+    if isinstance(it, ast.Name):
+        vals = static_values(func, it, at, depth + 1)
+        if vals is None:
+            return None
+        out = []
+        for v in vals:
+            els = _elements(func, v, at, depth + 1) if isinstance(v, (ast.Tuple, ast.List)) else None
+            if els is None:
+                return None
+            out += els
+        return out
+    return None
+
+
 class Effects:
     def __init__(self, repo, types):
         self.repo = repo
@@ -115,18 +192,11 @@ class Effects:
                     a = n.args[1]
                     names = [a.value] if isinstance(a, ast.Constant) and isinstance(a.value, str) else None
                     if names is None and isinstance(a, ast.Name):
-                        # `for name in ("a", "b"): setattr(x, name, ...)`: the literal tuple enumerates the attributes
-                        for lp in ast.walk(func.node):
-                            if isinstance(lp, ast.For) and isinstance(lp.target, ast.Name) and lp.target.id == a.id and any(x is n for x in ast.walk(lp)):
-                                it = lp.iter
-                                if isinstance(it, ast.Name):
-                                    # the tuple of names was given a name first: a local bound once, or a module-level constant
-                                    defs = [st0.value for st0 in ast.walk(func.node) if isinstance(st0, ast.Assign) and any(isinstance(t, ast.Name) and t.id == it.id for t in st0.targets)]
-                                    if not defs:
-                                        defs = [st0.value for st0 in func.module.tree.body if isinstance(st0, ast.Assign) and any(isinstance(t, ast.Name) and t.id == it.id for t in st0.targets)]
-                                    it = defs[0] if len(defs) == 1 else it
-                                if isinstance(it, (ast.Tuple, ast.List)) and it.elts and all(isinstance(x, ast.Constant) and isinstance(x.value, str) for x in it.elts):
-                                    names = [x.value for x in it.elts]
+                        # `for name in ("a", "b"): setattr(x, name, ...)`: a literal table enumerates the attributes (possibly
+                        # named first, nested, or unpacked row by row)
+                        vals = static_values(func, a, n)
+                        if vals and all(isinstance(x, ast.Constant) and isinstance(x.value, str) for x in vals):
+                            names = sorted({x.value for x in vals})
                     for nm in (names or ["*"]):
                         if n.func.id == "setattr":
                             effs.append(Effect("store", recv_info(n.args[0]), nm, n, n.args[0], func, op="setattr", value=n.args[2] if len(n.args) > 2 else None, stmt=n))
